@@ -23,6 +23,7 @@ CONSTANTS Closed,
                    \* invariants, source of replay scenarios): "AnyDoneOrder", "CloseBeforeDrain",
                    \* "SpawnAllThenWait", "SendFirstRemoteOnly", "NoSkipCheck", "SinkOnlyIfDriver" (= F1), "NoDrain" (= F12), "NoWaitAll" (= F16),
                    \* "StreamAtDone" (streaming IPs sent like ordinary ones, after the task), "NoFifoRemove",
+                   \* "SubNoDrain" (a task with a joined in-port is built without waiting for the end of the sub-stream),
                    \* "SinkFileFirst" (the sink drains its file port to the end before its parameter port), "SeqDrain" (abandoned
                    \* in-ports drained one after the other), "CombSendSeq" (a combinator sends its out-ports one after the other)
 
@@ -55,10 +56,17 @@ IsRelay(n)    == (PR(n).kind = "pcomb" /\ ~IsComb(n)) \/ PR(n).kind = "maptotags
      \* "pcomb" with one port: collects its whole input, then emits it;
      \* "maptotags": pass-through component - forwards every item as it arrives (ports in / out)
 IsPass(n)     == PR(n).kind = "maptotags"
-InPortsTab    == [n \in PNames |-> IF IsCmd(n) \/ PR(n).kind = "fcomb" THEN SeqPorts(n, PR(n).ins) ELSE IF IsPass(n) THEN {PortId(n, "in")} ELSE {}]
+\* "substream" (StreamToSubStream): emits ONE carrier item at once; the files arriving on its in-port are read by whoever receives
+\* the carrier on a joined in-port ({i:x|join:SEP}): NewTask drains that channel until it is closed.
+IsSub(n)      == PR(n).kind = "substream"
+Carrier(n)    == "carrier:" \o n
+InPortsTab    == [n \in PNames |-> IF IsCmd(n) \/ PR(n).kind = "fcomb" THEN SeqPorts(n, PR(n).ins) ELSE IF IsPass(n) \/ IsSub(n) THEN {PortId(n, "in")} ELSE {}]
+JoinPortsTab  == [n \in PNames |-> IF IsCmd(n) THEN SeqPorts(n, PR(n).joinports) ELSE {}]
+JoinPortsOf(n) == JoinPortsTab[n]
 ParamPortsTab == [n \in PNames |-> IF IsCmd(n) \/ PR(n).kind = "pcomb" THEN SeqPorts(n, PR(n).params) ELSE {}]
 FileOutsTab   == [n \in PNames |-> IF IsCmd(n) THEN SeqPorts(n, PR(n).outs)
                                    ELSE IF PR(n).kind = "src" \/ IsPass(n) THEN {PortId(n, "out")}
+                                   ELSE IF IsSub(n) THEN {PortId(n, "substream")}
                                    ELSE IF PR(n).kind = "fcomb" THEN {PortId(n, PR(n).ins[i]) \o ">" : i \in DOMAIN PR(n).ins} ELSE {}]
 ParamOutsTab  == [n \in PNames |-> IF PR(n).kind = "psrc" THEN {PortId(n, "out")}
                                    ELSE IF PR(n).kind = "pcomb" THEN {PortId(n, PR(n).params[i]) \o ">" : i \in DOMAIN PR(n).params} ELSE {}]
@@ -127,10 +135,12 @@ SubsOf(n) == {e \in SubIds : SubOwnerTab[e] = n}
 EmIds     == Emitters \cup FeedIds \cup SubIds
 EmItemsTab == [e \in EmIds |-> IF e \in FeedIds THEN FeedOf(e).values
                                ELSE IF e \in SubIds THEN <<>>
+                               ELSE IF IsSub(e) THEN <<Carrier(e)>>
                                ELSE IF PR(e).kind = "src" THEN PR(e).items ELSE PR(e).values]
 EmOutTab   == [e \in EmIds |-> IF e \in FeedIds THEN FeedOut(FeedOf(e))
                                ELSE IF e \in SubIds THEN PortId(SubOwnerTab[e], SubPortTab[e]) \o ">"
                                ELSE IF IsComb(e) THEN PortId(e, CombNames(e)[1]) \o ">"
+                               ELSE IF IsSub(e) THEN PortId(e, "substream")
                                ELSE IF PR(e).kind = "pcomb" THEN PortId(e, PR(e).params[1]) \o ">" ELSE PortId(e, "out")]
 RelayIn(e) == IF IsPass(e) THEN PortId(e, "in") ELSE PortId(e, PR(e).params[1])
 EmRemotesTab == [e \in EmIds |-> IF e \in FeedIds THEN {FeedOf(e).to} ELSE RemotesOf(EmOutTab[e])]
@@ -159,7 +169,10 @@ NSets0(n) == MinLen({Len(InStream(PortId(n, PR(n).ins[i]))) : i \in DOMAIN PR(n)
                    \cup {Len(InStream(PortId(n, PR(n).params[i]))) : i \in DOMAIN PR(n).params})
 NSetsTab == [n \in {m \in RunSet : IsCmd(m)} |-> NSets0(n)]
 NSets(n) == NSetsTab[n]
-ExpIns(n, k)    == [i \in DOMAIN PR(n).ins    |-> InStream(PortId(n, PR(n).ins[i]))[k]]
+PlainIns(n)     == SelectSeq(PR(n).ins, LAMBDA x : PortId(n, x) \notin JoinPortsOf(n))      \* joined ports do not enter the task's name
+ExpIns(n, k)    == [i \in DOMAIN PlainIns(n) |-> InStream(PortId(n, PlainIns(n)[i]))[k]]
+SubOfCarrier(c) == CHOOSE m \in PNames : IsSub(m) /\ Carrier(m) = c
+ExpSubs(n, k)   == [jp \in JoinPortsOf(n) |-> InStream(PortId(SubOfCarrier(InStream(jp)[k]), "in"))]
 ExpParams(n, k) == [i \in DOMAIN PR(n).params |-> InStream(PortId(n, PR(n).params[i]))[k]]
 \* the aligned Cartesian product: the stream of the j-th key, each element repeated (product of the later lengths) times,
 \* the whole tiled (product of the earlier lengths) times - combine() of the components, in closed form
@@ -175,12 +188,13 @@ OutStream(op) ==
   LET n == Owner(op) IN
   IF IsComb(n) THEN ProductStream([i \in DOMAIN CombNames(n) |-> InStream(PortId(n, CombNames(n)[i]))], CombIdx(n, op))   \* canonical key order
   ELSE IF IsRelay(n) THEN InStream(RelayIn(n))
+  ELSE IF IsSub(n) THEN <<Carrier(n)>>
   ELSE IF ~IsCmd(n) THEN (IF PR(n).kind = "src" THEN PR(n).items ELSE PR(n).values)
   ELSE LET port == CHOOSE o \in ToSet(PR(n).outs) : PortId(n, o) = op
        IN  [k \in 1..NSets(n) |-> OutItem(n, port, ExpIns(n, k), ExpParams(n, k))]
 
 ExpTasks == UNION {{[proc |-> n, k |-> k, key |-> TaskKey(n, ExpIns(n, k), ExpParams(n, k)),
-                     ins |-> ExpIns(n, k), params |-> ExpParams(n, k),
+                     ins |-> ExpIns(n, k), params |-> ExpParams(n, k), subs |-> ExpSubs(n, k),
                      outs |-> {OutItem(n, PR(n).outs[j], ExpIns(n, k), ExpParams(n, k)) :
                                  j \in {i \in DOMAIN PR(n).outs : PortId(n, PR(n).outs[i]) \notin StreamOutsOf(n)}},
                      streams |-> {OutItem(n, PR(n).outs[j], ExpIns(n, k), ExpParams(n, k)) :
@@ -237,15 +251,17 @@ VARIABLES
   execs,     \* ghost: task key -> number of command executions
   emitted,   \* ghost: out-port -> sequence of items handed to the port
   recvd,     \* ghost: in-port -> sequence of <<from, item>> received
+  csub,      \* cmd process -> [left: joined in-ports whose sub-stream is still to be read, cur: the one being read or "", got: port -> members]
   cb,        \* combinator -> [left: in-ports not yet drained, cur: the port being drained or "", got: port -> items, perm: key order of combine()]
   strm       \* streaming: [fifos: items whose FIFO exists, wopen: items whose producer command has started (writer opened),
              \*             ropen: items whose consumer command has started (reader opened)]  - wopen / ropen only grow
 
 vars == <<phase, q, ups, em, relayed, rpc, ctpc, ctleft, ctgot, ctopen, offer, tasksnil, tk, ts, started,
-          sout, cl, tokens, final, failed, execs, emitted, recvd, strm, cb>>
+          sout, cl, tokens, final, failed, execs, emitted, recvd, strm, cb, csub>>
 
 StrmInit == [fifos |-> {}, wopen |-> {}, ropen |-> {}]
 CombPorts(n) == {PortId(n, CombNames(n)[i]) : i \in DOMAIN CombNames(n)}
+CsubInit == [n \in CmdRun |-> [done |-> {}, cur |-> "", got |-> [jp \in JoinPortsTab[n] |-> <<>>]]]
 CbInit == [n \in Combs |-> [left |-> CombPorts(n), cur |-> "", got |-> [port \in CombPorts(n) |-> <<>>], perm |-> <<>>]]
 EmInit == [e \in EmIds |-> [i |-> 1, left |-> EmRemotes(e), wait |-> "", eof |-> FALSE,
                             st |-> IF e \in Relays \cup Combs THEN "collect" ELSE IF e \in SubIds THEN "wait" ELSE "run"]]
@@ -283,6 +299,7 @@ Init ==
   /\ recvd = [port \in AllInPorts |-> <<>>]
   /\ strm = StrmInit
   /\ cb = CbInit
+  /\ csub = CsubInit
 
 (************************ channel primitives ******************************)
 \* index i of q[port] may be received: Closed - the head; acceptor - the oldest entry of its sender
@@ -299,7 +316,7 @@ Active(e) == IF e \in FeedIds THEN phase \in {"init", "running"} ELSE Running
 StartProcs == /\ phase = "init"
               /\ phase' = "running"
               /\ UNCHANGED <<q, ups, em, relayed, rpc, ctpc, ctleft, ctgot, ctopen, offer, tasksnil, tk, ts, started,
-                             sout, cl, tokens, final, failed, execs, emitted, recvd, strm, cb>>
+                             sout, cl, tokens, final, failed, execs, emitted, recvd, strm, cb, csub>>
 
 (************************ emitters: sources, param sources, feeders *******)
 SubsBefore(e) == {x \in SubsOf(SubOwnerTab[e]) : \E i, j \in DOMAIN CombNames(SubOwnerTab[e]) :
@@ -318,14 +335,14 @@ EmSendBegin(e, r) ==
                                                       ELSE [@ EXCEPT !.left = left]]
                  ELSE [em EXCEPT ![e] = [@ EXCEPT !.left = left, !.wait = r]]
   /\ UNCHANGED <<phase, ups, relayed, rpc, ctpc, ctleft, ctgot, ctopen, offer, tasksnil, tk, ts, started, sout, cl,
-                 tokens, final, failed, execs, recvd, strm, cb>>
+                 tokens, final, failed, execs, recvd, strm, cb, csub>>
 
 EmSendDone(e, r) ==     \* acceptor mode only
   /\ ~Closed /\ Active(e) /\ em[e].wait = r /\ r # ""
   /\ em' = [em EXCEPT ![e] = IF @.left = {} THEN [@ EXCEPT !.i = @ + 1, !.left = EmRemotes(e), !.wait = ""]
                                             ELSE [@ EXCEPT !.wait = ""]]
   /\ UNCHANGED <<phase, q, ups, relayed, rpc, ctpc, ctleft, ctgot, ctopen, offer, tasksnil, tk, ts, started, sout, cl,
-                 tokens, final, failed, execs, emitted, recvd, strm, cb>>
+                 tokens, final, failed, execs, emitted, recvd, strm, cb, csub>>
 
 \* a relay (one-port ParamCombinator) receives until its port is closed, then starts emitting
 RelayRecv(e, i) ==
@@ -342,7 +359,7 @@ RelayRecv(e, i) ==
         /\ em' = [em EXCEPT ![e].st = "run", ![e].eof = TRUE]
         /\ UNCHANGED <<q, recvd, relayed>>
   /\ UNCHANGED <<phase, ups, rpc, ctpc, ctleft, ctgot, ctopen, offer, tasksnil, tk, ts, started, sout, cl,
-                 tokens, final, failed, execs, emitted, strm, cb>>
+                 tokens, final, failed, execs, emitted, strm, cb, csub>>
 
 EmFinish(e) ==          \* all items sent: deferred CloseAllOutPorts / pop.Close
   /\ e \notin SubIds
@@ -351,7 +368,7 @@ EmFinish(e) ==          \* all items sent: deferred CloseAllOutPorts / pop.Close
   /\ em' = [em EXCEPT ![e].st = "closing"]
   /\ cl' = [cl EXCEPT ![e] = {<<EmOut(e), r>> : r \in EmRemotes(e)}]
   /\ UNCHANGED <<phase, q, ups, relayed, rpc, ctpc, ctleft, ctgot, ctopen, offer, tasksnil, tk, ts, started, sout,
-                 tokens, final, failed, execs, emitted, recvd, strm, cb>>
+                 tokens, final, failed, execs, emitted, recvd, strm, cb, csub>>
 
 \* ---- combinators -------------------------------------------------------------------------------
 \* the component ranges over its in-ports (map order = any order) and drains each one until it is closed
@@ -359,7 +376,7 @@ CombPick(n, port) ==
   /\ Running /\ em[n].st = "collect" /\ cb[n].cur = "" /\ port \in cb[n].left
   /\ cb' = [cb EXCEPT ![n].cur = port]
   /\ UNCHANGED <<phase, q, ups, em, relayed, rpc, ctpc, ctleft, ctgot, ctopen, offer, tasksnil, tk, ts, started, sout, cl,
-                 tokens, final, failed, execs, emitted, recvd, strm>>
+                 tokens, final, failed, execs, emitted, recvd, strm, csub>>
 CombRecv(n, i) ==
   /\ Running /\ em[n].st = "collect" /\ cb[n].cur # ""
   /\ LET port == cb[n].cur IN
@@ -371,7 +388,7 @@ CombRecv(n, i) ==
         /\ cb' = [cb EXCEPT ![n].cur = "", ![n].left = @ \ {port}]
         /\ UNCHANGED <<q, recvd>>
   /\ UNCHANGED <<phase, ups, em, relayed, rpc, ctpc, ctleft, ctgot, ctopen, offer, tasksnil, tk, ts, started, sout, cl,
-                 tokens, final, failed, execs, emitted, strm>>
+                 tokens, final, failed, execs, emitted, strm, csub>>
 \* combine(): the key order is the iteration order of a second map (any permutation; the closed model fixes the canonical one,
 \* the streams of all permutations have the same lengths and the same aligned tuples)
 CombPerms(n) == IF Closed THEN {CombNames(n)} ELSE SetToSeqs(ToSet(CombNames(n)))
@@ -381,18 +398,18 @@ CombEmit(n, perm) ==
   /\ em' = [e \in EmIds |-> IF e = n THEN [em[e] EXCEPT !.st = "emitting"]
                              ELSE IF e \in SubsOf(n) THEN [em[e] EXCEPT !.st = "run"] ELSE em[e]]
   /\ UNCHANGED <<phase, q, ups, relayed, rpc, ctpc, ctleft, ctgot, ctopen, offer, tasksnil, tk, ts, started, sout, cl,
-                 tokens, final, failed, execs, emitted, recvd, strm>>
+                 tokens, final, failed, execs, emitted, recvd, strm, csub>>
 SubFinish(e) ==         \* the sending goroutine of one out-port has sent everything (wg.Done)
   /\ Running /\ e \in SubIds /\ em[e].st = "run" /\ em[e].wait = "" /\ em[e].i > Len(EmItems(e))
   /\ em' = [em EXCEPT ![e].st = "done"]
   /\ UNCHANGED <<phase, q, ups, relayed, rpc, ctpc, ctleft, ctgot, ctopen, offer, tasksnil, tk, ts, started, sout, cl,
-                 tokens, final, failed, execs, emitted, recvd, strm, cb>>
+                 tokens, final, failed, execs, emitted, recvd, strm, cb, csub>>
 CombFinish(n) ==        \* wg.Wait() returned: deferred CloseAllOutPorts
   /\ Running /\ em[n].st = "emitting" /\ \A e \in SubsOf(n) : em[e].st = "done"
   /\ em' = [em EXCEPT ![n].st = "closing"]
   /\ cl' = [cl EXCEPT ![n] = {pr \in OutsOf(n) \X AllInPorts : pr[2] \in RemotesOf(pr[1])}]
   /\ UNCHANGED <<phase, q, ups, relayed, rpc, ctpc, ctleft, ctgot, ctopen, offer, tasksnil, tk, ts, started, sout,
-                 tokens, final, failed, execs, emitted, recvd, strm, cb>>
+                 tokens, final, failed, execs, emitted, recvd, strm, cb, csub>>
 
 \* CloseConnection: atomic under the in-port's closeLock
 CloseConn(x, op, r) ==
@@ -406,7 +423,7 @@ CloseConn(x, op, r) ==
      ELSE /\ rpc' = IF cl'[x] = {} THEN [rpc EXCEPT ![x] = "done"] ELSE rpc
           /\ em' = em
   /\ UNCHANGED <<phase, q, relayed, ctpc, ctleft, ctgot, ctopen, offer, tasksnil, tk, ts, started, sout,
-                 tokens, final, failed, execs, emitted, recvd, strm, cb>>
+                 tokens, final, failed, execs, emitted, recvd, strm, cb, csub>>
 
 (************************ cmd processes: Run loop and createTasks *********)
 OutPairsTab == [n \in CmdRun |-> {<<op, r>> \in FileOutsOf(n) \X AllInPorts : r \in RemotesOf(op)}]
@@ -425,7 +442,7 @@ ProcStart(n) ==
           /\ ctleft' = [ctleft EXCEPT ![n] = PhasePorts(n, FirstPhase(n))]
           /\ phase' = phase
   /\ UNCHANGED <<q, ups, em, relayed, ctgot, ctopen, offer, tasksnil, tk, ts, started, sout, cl,
-                 tokens, final, failed, execs, emitted, recvd, strm, cb>>
+                 tokens, final, failed, execs, emitted, recvd, strm, cb, csub>>
 
 \* one receive of createTasks (file or param port); i = 0 stands for "closed"
 CTRecv(n, port, i) ==
@@ -445,25 +462,48 @@ CTRecv(n, port, i) ==
      IN /\ ctpc' = [ctpc EXCEPT ![n] = nxt]
         /\ ctleft' = [ctleft EXCEPT ![n] = IF left # {} THEN left ELSE PhasePorts(n, nxt)]
   /\ UNCHANGED <<phase, ups, em, relayed, rpc, offer, tasksnil, tk, ts, started, sout, cl,
-                 tokens, final, failed, execs, emitted, strm, cb>>
+                 tokens, final, failed, execs, emitted, strm, cb, csub>>
 
 AfterOffer(n) == IF InPortsOf(n) = {} /\ ParamPortsOf(n) = {} THEN "end" ELSE FirstPhase(n)
-GotIns(n)    == [i \in DOMAIN PR(n).ins    |-> ctgot[n][PortId(n, PR(n).ins[i])]]
+GotIns(n)    == [i \in DOMAIN PlainIns(n) |-> ctgot[n][PortId(n, PlainIns(n)[i])]]
+\* NewTask reads the sub-stream of every joined in-port to its end (one port after the other, map order), then the task exists
+CsubFresh(n) == [done |-> {}, cur |-> "", got |-> [jp \in JoinPortsOf(n) |-> <<>>]]
+SubDone(n)   == csub[n].done = JoinPortsOf(n) /\ csub[n].cur = ""
+SubChan(n)   == PortId(SubOfCarrier(ctgot[n][csub[n].cur]), "in")       \* the channel behind the carrier received on the joined port
+CTSubPick(n, jp) ==
+  /\ Running /\ ctpc[n] = "build" /\ csub[n].cur = "" /\ jp \in JoinPortsOf(n) \ csub[n].done
+  /\ csub' = [csub EXCEPT ![n].cur = jp]
+  /\ UNCHANGED <<phase, q, ups, em, relayed, rpc, ctpc, ctleft, ctgot, ctopen, offer, tasksnil, tk, ts, started, sout, cl,
+                 tokens, final, failed, execs, emitted, recvd, strm, cb>>
+CTSub(n, i) ==
+  /\ Running /\ ctpc[n] = "build" /\ csub[n].cur # ""
+  /\ LET port == SubChan(n) IN
+     \/ /\ i > 0 /\ Receivable(port, i)
+        /\ q' = [q EXCEPT ![port] = DropAt(@, i)]
+        /\ recvd' = [recvd EXCEPT ![port] = Append(@, q[port][i])]
+        /\ csub' = [csub EXCEPT ![n].got[csub[n].cur] = Append(@, q[port][i][2])]
+     \/ /\ i = 0 /\ PortClosed(port)
+        /\ csub' = [csub EXCEPT ![n].done = @ \cup {csub[n].cur}, ![n].cur = ""]
+        /\ UNCHANGED <<q, recvd>>
+  /\ UNCHANGED <<phase, ups, em, relayed, rpc, ctpc, ctleft, ctgot, ctopen, offer, tasksnil, tk, ts, started, sout, cl,
+                 tokens, final, failed, execs, emitted, strm, cb>>
 GotParams(n) == [i \in DOMAIN PR(n).params |-> ctgot[n][PortId(n, PR(n).params[i])]]
 
 \* NewTask + offer on the unbuffered task channel ("task.new")
 CTOffer(n) ==
-  /\ Running /\ ctpc[n] = "build"
+  /\ Running /\ ctpc[n] = "build" /\ ("SubNoDrain" \in Weak \/ SubDone(n)) /\ csub[n].cur = ""
   /\ IF \E i \in DOMAIN GotParams(n) : GotParams(n)[i] = ""
      THEN /\ Fail        \* "Missing param value"
-          /\ UNCHANGED <<tk, ts, ctpc, ctgot, ctleft, ctopen, offer>>
-     ELSE /\ tk' = [tk EXCEPT ![n] = Append(@, [ins |-> GotIns(n), params |-> GotParams(n),
+          /\ UNCHANGED <<tk, ts, ctpc, ctgot, ctleft, ctopen, offer, csub>>
+     ELSE /\ tk' = [tk EXCEPT ![n] = Append(@, [ins |-> GotIns(n), params |-> GotParams(n), subs |-> csub[n].got,
+                                               car |-> [jp \in JoinPortsOf(n) |-> ctgot[n][jp]],
                                                key |-> TaskKey(n, GotIns(n), GotParams(n)),
                                                out |-> [o \in ToSet(PR(n).outs) |->
                                                          OutItem(n, o, GotIns(n), GotParams(n))]])]
           /\ ts' = [ts EXCEPT ![n] = Append(@, "new")]
           /\ offer' = [offer EXCEPT ![n] = Append(@, Len(tk[n]) + 1)]
           /\ ctgot' = [ctgot EXCEPT ![n] = <<>>]
+          /\ csub' = [csub EXCEPT ![n] = CsubFresh(n)]
           /\ phase' = phase
           /\ IF Closed     \* the send on the unbuffered channel blocks until the Run loop takes it
              THEN /\ ctpc' = [ctpc EXCEPT ![n] = "offered"]
@@ -510,7 +550,7 @@ TakeTask(n) ==
           /\ ctopen' = [ctopen EXCEPT ![n] = TRUE]
      ELSE UNCHANGED <<ctpc, ctleft, ctopen>>
   /\ UNCHANGED <<phase, q, ups, em, relayed, ctgot, tasksnil, tk, cl,
-                 tokens, final, failed, execs, recvd, cb>>
+                 tokens, final, failed, execs, recvd, cb, csub>>
 
 \* the Run loop sends the streaming IP of the task just taken to every remote of the port, then spawns the task
 FifoSent(n) == LET k == sout[n].n IN
@@ -528,13 +568,13 @@ FifoSendBegin(n, op, r) ==
      ELSE /\ sout' = [sout EXCEPT ![n].left = left, ![n].wait = <<op, r>>]
           /\ UNCHANGED <<rpc, ts, started>>
   /\ UNCHANGED <<phase, ups, em, relayed, ctpc, ctleft, ctgot, ctopen, offer, tasksnil, tk, cl,
-                 tokens, final, failed, execs, emitted, recvd, strm, cb>>
+                 tokens, final, failed, execs, emitted, recvd, strm, cb, csub>>
 FifoSendDone(n, op, r) ==     \* acceptor mode only
   /\ ~Closed /\ Running /\ rpc[n] = "sendfifo" /\ sout[n].wait = <<op, r>>
   /\ sout' = [sout EXCEPT ![n].wait = <<>>]
   /\ IF sout[n].left = {} THEN FifoSent(n) ELSE UNCHANGED <<rpc, ts, started>>
   /\ UNCHANGED <<phase, q, ups, em, relayed, ctpc, ctleft, ctgot, ctopen, offer, tasksnil, tk, cl,
-                 tokens, final, failed, execs, emitted, recvd, strm, cb>>
+                 tokens, final, failed, execs, emitted, recvd, strm, cb, csub>>
 
 \* createTasks has stopped: what still arrives on the process's ports is received and dropped
 \* (drainInPorts, fix F12); switched off by the weakening flag "NoDrain"
@@ -545,24 +585,24 @@ CTDrain(n, port, i) ==
   /\ q' = [q EXCEPT ![port] = DropAt(@, i)]
   /\ recvd' = [recvd EXCEPT ![port] = Append(@, q[port][i])]
   /\ UNCHANGED <<phase, ups, em, relayed, rpc, ctpc, ctleft, ctgot, ctopen, offer, tasksnil, tk, ts, started, sout, cl,
-                 tokens, final, failed, execs, emitted, strm, cb>>
+                 tokens, final, failed, execs, emitted, strm, cb, csub>>
 
 CTEnd(n) ==           \* createTasks returns, deferred close(ch)
   /\ Running /\ ctpc[n] = "end"
   /\ ctpc' = [ctpc EXCEPT ![n] = "closed"]
   /\ UNCHANGED <<phase, q, ups, em, relayed, rpc, ctleft, ctgot, ctopen, offer, tasksnil, tk, ts, started, sout, cl,
-                 tokens, final, failed, execs, emitted, recvd, strm, cb>>
+                 tokens, final, failed, execs, emitted, recvd, strm, cb, csub>>
 
 TasksClosed(n) ==     \* Run loop sees the closed task channel
   /\ Running /\ rpc[n] = "loop" /\ ctpc[n] = "closed" /\ offer[n] = <<>> /\ ~tasksnil[n]
   /\ tasksnil' = [tasksnil EXCEPT ![n] = TRUE]
   /\ UNCHANGED <<phase, q, ups, em, relayed, rpc, ctpc, ctleft, ctgot, ctopen, offer, tk, ts, started, sout, cl,
-                 tokens, final, failed, execs, emitted, recvd, strm, cb>>
+                 tokens, final, failed, execs, emitted, recvd, strm, cb, csub>>
 
 (************************ tasks *******************************************)
 SetTs(n, k, s) == ts' = [ts EXCEPT ![n][k] = s]
 TaskUnch0 == UNCHANGED <<q, ups, em, relayed, rpc, ctpc, ctleft, ctgot, ctopen, offer, tasksnil, tk, started, sout, cl,
-                         emitted, recvd, cb>>
+                         emitted, recvd, cb, csub>>
 TaskUnch == TaskUnch0 /\ UNCHANGED strm
 
 ExBegin(n, k) ==       \* "exec.begin"
@@ -652,7 +692,7 @@ TakeDone(n) ==
                                         ELSE emitted[op]]
      /\ strm' = IF "NoFifoRemove" \in Weak THEN strm ELSE [strm EXCEPT !.fifos = @ \ TStreams(n, k)]        \* os.Remove(FifoPath)
   /\ UNCHANGED <<phase, q, ups, em, relayed, ctpc, ctleft, ctgot, ctopen, offer, tasksnil, tk, cl,
-                 tokens, final, failed, execs, recvd, cb>>
+                 tokens, final, failed, execs, recvd, cb, csub>>
 
 SendOutBegin(n, op, r) ==
   /\ Running /\ rpc[n] = "sendout" /\ sout[n].wait = <<>> /\ <<op, r>> \in sout[n].left
@@ -665,14 +705,14 @@ SendOutBegin(n, op, r) ==
      ELSE /\ sout' = [sout EXCEPT ![n].left = left, ![n].wait = <<op, r>>]
           /\ rpc' = rpc
   /\ UNCHANGED <<phase, ups, em, relayed, ctpc, ctleft, ctgot, ctopen, offer, tasksnil, tk, ts, started, cl,
-                 tokens, final, failed, execs, emitted, recvd, strm, cb>>
+                 tokens, final, failed, execs, emitted, recvd, strm, cb, csub>>
 
 SendOutDone(n, op, r) ==     \* acceptor mode only
   /\ ~Closed /\ Running /\ rpc[n] = "sendout" /\ sout[n].wait = <<op, r>>
   /\ sout' = [sout EXCEPT ![n].wait = <<>>]
   /\ rpc' = [rpc EXCEPT ![n] = IF sout[n].left = {} THEN "loop" ELSE "sendout"]
   /\ UNCHANGED <<phase, q, ups, em, relayed, ctpc, ctleft, ctgot, ctopen, offer, tasksnil, tk, ts, started, cl,
-                 tokens, final, failed, execs, emitted, recvd, strm, cb>>
+                 tokens, final, failed, execs, emitted, recvd, strm, cb, csub>>
 
 RunExit(n) ==          \* loop ends, deferred CloseOutPorts ("proc.exit")
   /\ Running /\ rpc[n] = "loop" /\ tasksnil[n]
@@ -681,7 +721,7 @@ RunExit(n) ==          \* loop ends, deferred CloseOutPorts ("proc.exit")
      /\ cl' = [cl EXCEPT ![n] = pend]
      /\ rpc' = [rpc EXCEPT ![n] = IF pend = {} THEN "done" ELSE "closing"]
   /\ UNCHANGED <<phase, q, ups, em, relayed, ctpc, ctleft, ctgot, ctopen, offer, tasksnil, tk, ts, started, sout,
-                 tokens, final, failed, execs, emitted, recvd, strm, cb>>
+                 tokens, final, failed, execs, emitted, recvd, strm, cb, csub>>
 
 (************************ sink and main ***********************************)
 SinkPorts == (IF SinkUps # {} THEN {SinkIn} ELSE {}) \cup (IF PSinkUps # {} THEN {PSinkIn} ELSE {})
@@ -693,7 +733,7 @@ SinkRecv(port, i) ==
   /\ q' = [q EXCEPT ![port] = DropAt(@, i)]
   /\ recvd' = [recvd EXCEPT ![port] = Append(@, q[port][i])]
   /\ UNCHANGED <<phase, ups, em, relayed, rpc, ctpc, ctleft, ctgot, ctopen, offer, tasksnil, tk, ts, started, sout, cl,
-                 tokens, final, failed, execs, emitted, strm, cb>>
+                 tokens, final, failed, execs, emitted, strm, cb, csub>>
 
 DriverDone == /\ SinkRuns => \A port \in SinkPorts : PortClosed(port)
               /\ Driver # "SINK" => rpc[Driver] = "done"
@@ -705,8 +745,10 @@ MainReturn ==
   /\ Running /\ DriverDone /\ AllProcsDone
   /\ phase' = "returned"
   /\ UNCHANGED <<q, ups, em, relayed, rpc, ctpc, ctleft, ctgot, ctopen, offer, tasksnil, tk, ts, started, sout, cl,
-                 tokens, final, failed, execs, emitted, recvd, strm, cb>>
+                 tokens, final, failed, execs, emitted, recvd, strm, cb, csub>>
 
+SubStep(n) == \/ \E jp \in JoinPortsOf(n) : CTSubPick(n, jp)
+              \/ (csub[n].cur # "" /\ ctpc[n] = "build" /\ \E i \in 0..Len(q[SubChan(n)]) : CTSub(n, i))
 CombStep == \/ \E n \in Combs : \/ \E port \in CombPorts(n) : CombPick(n, port)
                                  \/ (cb[n].cur # "" /\ \E i \in 0..Len(q[cb[n].cur]) : CombRecv(n, i))
                                  \/ \E perm \in CombPerms(n) : CombEmit(n, perm)
@@ -726,6 +768,7 @@ Next ==
         \/ ProcStart(n) \/ CTOffer(n) \/ TakeTask(n) \/ CTEnd(n) \/ TasksClosed(n)
         \/ TakeDone(n) \/ RunExit(n)
         \/ \E port \in AllInPorts : \E i \in 0..Len(q[port]) : CTRecv(n, port, i)
+        \/ SubStep(n)
         \/ \E port \in AllInPorts : \E i \in 1..Len(q[port]) : CTDrain(n, port, i)
         \/ \E op \in AllOuts, r \in AllInPorts : SendOutBegin(n, op, r) \/ SendOutDone(n, op, r)
         \/ \E op \in StreamOutsOf(n), r \in AllInPorts : FifoSendBegin(n, op, r) \/ FifoSendDone(n, op, r)
@@ -776,6 +819,11 @@ C17_Rendezvous == \A n \in CmdRun : \A k \in DOMAIN ts[n] :
                      ts[n][k] \in {"ended", "published", "doneoffer", "done"} /\ TKey(n, k) \in DOMAIN execs
                      => /\ TStreams(n, k) \subseteq strm.ropen
                         /\ (TInItems(n, k) \cap StreamItems) \subseteq strm.wopen
+
+\* C18 at this grain: the members a task was built with are everything that ever went into the sub-stream behind its carrier
+C18_Whole == \A n \in CmdRun : \A k \in DOMAIN tk[n] : \A jp \in JoinPortsOf(n) :
+                LET sp == PortId(SubOfCarrier(tk[n][k].car[jp]), "in")
+                IN  tk[n][k].subs[jp] = Items(recvd[sp]) /\ q[sp] = <<>>
 
 \* C06 at this grain: running commands never need more slots than exist
 RunningCores == LET S == {<<n, k>> \in UNION {{n} \X DOMAIN ts[n] : n \in CmdRun} :
